@@ -210,27 +210,31 @@ NOT_APPLICABLE = {
 
 # clauses added after the first build (rounds 3-4 of seeded changes), appended to the level text of the property
 ADDED = {
-    'C01': ' REAL values are written with exactly six decimals; the join keys of the loader (shared with C03) are typed by the association role model. A STRING token is taken apart only by [1:-1] plus quote un-doubling. The value a shared referential attribute is written with comes through the getter chain of formalize (shared with C03).',
+    'C01': ' REAL values are written with exactly six decimals; the join keys of the loader (shared with C03) are typed by the association role model. A STRING token is taken apart only by [1:-1] plus quote un-doubling. The value a shared referential attribute is written with comes through the getter chain of formalize (shared with C03). The writer reads values through getattr, never from the raw instance dictionary; every CREATE statement is handed to the metamodel by its pass unfiltered (shared with C03).',
     'C02': ' The partner sets keep their linked-list invariant under add / discard / pop (shape analysis, shared with C17); referential attributes '
            'are read through the declared cell (shared with C10). Navigations accumulate into containers of their own; MetaClass.new pools the instance before relating it; the loader strips every stored referential copy. relate / unrelate are tabled also for an instance related to itself; disconnect is tabled per cardinality of the end; the navigation tables of C09 are shared.',
     'C03': ' A shared referential attribute chains to the property installed before under the same name; all input channels decode text alike; '
            'the batch connect is mirrored (shared with C02) and reads keys through Class.__getattr__ (shared with C10). _find_link picks the association by number, both end kinds and phrase (shared with C02).',
-    'C04': ' List nodes are built in source order, keyword fields are read case-normalised, navigation and link operations are the tables of C09 / C02 (shared rule groups).',
-    'C05': ' Identifiers are installed and looked up exactly as spelled; every select form writes the cardinality it read; is_global is a truth table over the package hierarchy. Every path through a text generator writes or delegates.',
-    'C06': ' A parameter read is resolved along a navigation from the owning element; no None child reaches a statement list; identifiers are looked up exactly as spelled. The statement context (act_smt) is forwarded by every dispatching handler. Every value on the index chain of an assigned array element is typed; a referential attribute reads with the type of the attribute it refers to.',
-    'C07': ' Sibling productions agree on the node class of keyword-qualified invocations and on the kind of symbol each node field receives; a possibly empty statement is never added to a list unguarded. Different fixed words build different nodes; words naming other tokens stay identifiers. The node classes with a relationship phrase agree on the empty string for the absent phrase.',
-    'C08': ' Keyword fields of child nodes (typed from the grammar actions) are followed as well, and symbol-table lookups are sinks. A grammar action shared by a keyword and a free-text alternative (instance_name : variable_name | SELF) forwards the keyword case-normalised.',
-    'C09': ' WhereEqual is a table over all component outcomes including the empty filter; the result sets keep their linked-list invariant (shape analysis, shared with C17). A stale raw copy in the instance dictionary does not influence the equality filter. A rejected relate / unrelate leaves both directions as they were (shared with C02); filters on a shared referential attribute read it through the getter chain (shared with C03).',
-    'C11': ' The partner sets that are counted change by exactly the pair (link operation tables shared with C02); an overwritten error counter in a main function is reported.',
-    'C10': ' __delattr__ is tabled over the declared attributes as well; the index keys of the loader use the association spelling (shared with C03).',
+    'C04': ' List nodes are built in source order, keyword fields are read case-normalised, navigation and link operations are the tables of C09 / C02 (shared rule groups). None of the four control exceptions derives from another and no common base is caught; the short and the long spelling of a statement build the same node (shared with C07).',
+    'C05': ' Identifiers are installed and looked up exactly as spelled; every select form writes the cardinality it read; is_global is a truth table over the package hierarchy. Every path through a text generator writes or delegates. Text names a class / external entity by the attribute prebuild looks it up with; per-construct context is not kept in walker attributes across a further dispatch (shared with C06).',
+    'C06': ' A parameter read is resolved along a navigation from the owning element; no None child reaches a statement list; identifiers are looked up exactly as spelled. The statement context (act_smt) is forwarded by every dispatching handler. Every value on the index chain of an assigned array element is typed; a referential attribute reads with the type of the attribute it refers to. A handed-in statement gets its subtype on every path on which no test of the parameter alone rules it out; handlers of nestable constructs keep their context in locals / arguments.',
+    'C07': ' Sibling productions agree on the node class of keyword-qualified invocations and on the kind of symbol each node field receives; a possibly empty statement is never added to a list unguarded. Different fixed words build different nodes; words naming other tokens stay identifiers. The node classes with a relationship phrase agree on the empty string for the absent phrase. The block- and line-comment token languages equal the comment languages of OAL (two automaton inclusions each).',
+    'C08': ' Keyword fields of child nodes (typed from the grammar actions) are followed as well, and symbol-table lookups are sinks. A grammar action shared by a keyword and a free-text alternative (instance_name : variable_name | SELF) forwards the keyword case-normalised. The keyword decision of t_ID is tabled for every keyword in five spellings.',
+    'C09': ' WhereEqual is a table over all component outcomes including the empty filter; the result sets keep their linked-list invariant (shape analysis, shared with C17). A stale raw copy in the instance dictionary does not influence the equality filter. A rejected relate / unrelate leaves both directions as they were (shared with C02); filters on a shared referential attribute read it through the getter chain (shared with C03). Every value select_many returns is the whole pipeline result, whatever extra test precedes it.',
+    'C11': ' The partner sets that are counted change by exactly the pair (link operation tables shared with C02); an overwritten error counter in a main function is reported. The null test counts an identifying attribute also when it is referential.',
+    'C10': ' __delattr__ is tabled over the declared attributes as well; the index keys of the loader use the association spelling (shared with C03). Instance dictionaries are written only by the Class dunder methods or under a key bound by iterating the declared attributes (who-may-write); class names given to a navigation are resolved alike on both hops (shared with C09).',
     'C12': ' Every value lexeme the grammar accepts gets a type name (automata inclusion against guess_type_name); constructs that raise by themselves on malformed data '
            '(zip(strict=True), unguarded delattr, an element of split()) are not used unguarded on the input routes. Exception messages are built from literal format strings; no converter runs on token text inside a grammar action. An entry of <instance>.__dict__ is read only under a membership guard.',
-    'C13': ' No partial converter (int, float, ...) is applied to token text while parsing; endlexpos is computed from the matched text, not from a re-bound value. text_input feeds the parser the text it was given.',
+    'C13': ' No partial converter (int, float, ...) is applied to token text while parsing; endlexpos is computed from the matched text, not from a re-bound value. text_input feeds the parser the text it was given. Every parse starts with a lexer whose line counter is 1 (built for the call, or reset before parsing).',
     'C17': ' The truth value of an element is unknown to the analysis: first / last / pop must not depend on it.',
     'C15': ' The numbering loop of an enumeration walks the sequence sort_reflexive returns. run_* keep no module-level cache; loop control and bare return behave as C04 decides (shared). Every element kind of mk_component is selected through the component filter.',
     'C18': ' Nothing kept by the loader or its statements is a one-shot iterator; a rejected input leaves nothing behind (shared with C12). MetaModel.clone resolves the class in the receiving metamodel. No parameter default constructs an object (it would be shared by every build).',
-    'C19': ' MetaModel.new and calling a metaclass forward their arguments to MetaClass.new unchanged; a given generator of any kind is stored. A function that accepts an id generator hands exactly that object to the metamodel it creates.',
-    'C20': ' The builders keep no state between generations (no memoising decorator, mutable default or module-level container); a user type restricts its immediate base; loops over selected elements run to their end. An enumeration / structure declaration is returned on every path. A rejected edit leaves the model unchanged (shared with C02) and containment is found by the navigation tables of C09 (shared).',
+    'C19': ' MetaModel.new and calling a metaclass forward their arguments to MetaClass.new unchanged; a given generator of any kind is stored. A function that accepts an id generator hands exactly that object to the metamodel it creates. The positional INSERT route stores only deserialised statement values over the defaults computed by new().',
+    'C20': ' The builders keep no state between generations (no memoising decorator, mutable default or module-level container); a user type restricts its immediate base; loops over selected elements run to their end. An enumeration / structure declaration is returned on every path. A rejected edit leaves the model unchanged (shared with C02) and containment is found by the navigation tables of C09 (shared). main() hands build_schema the component whose Name equals the -c argument exactly.',
+    'C02': ' The exception constructors format caller-given arguments with total conversions only, so the documented rejection can always be built.',
+    'C03': ' In the definition passes the define_* call is guarded by the statement-class filter only.',
+    'C12': ' A look-up table built from the model and subscripted with statement data is guarded.',
+    'C14': ' Association phrases survive writing and loading the schema (quote discipline shared with C01).',
 }
 
 ALL = ['C%02d' % i for i in range(1, 21)]
